@@ -309,6 +309,17 @@ func (e *Effects) applySummary(fn *ssa.Function, s *fnState, sum *Summary, site 
 					locs = ls
 				}
 			}
+			// a store into a map received as a parameter: when the actual is a field of a struct (s.Regions), the map
+			// written is that field's, and the effect is named after the field as if the store were made here
+			if !isW && ri.field == "" && !ri.value {
+				for _, pre := range []string{"map(", "mapdelete(", "clear("} {
+					if strings.HasPrefix(ef.Loc, pre) && strings.TrimSuffix(strings.TrimPrefix(ef.Loc, pre), ")") == typeStr(a.Type()) {
+						if own := ownerOf(a); own != typeStr(a.Type()) && strings.Contains(own, ".") && !strings.ContainsAny(own, "[]*(/") {
+							locs = [][2]string{{pre + own + ")", ef.CT}}
+						}
+					}
+				}
+			}
 			for _, lc := range locs {
 				e.emit(fn, s, ar, lc[0], lc[1], ef.Pos, ef.Fn, v2, vr, ef.ValT.sorted()...)
 				s.storeRegion(ar, lc[0], vr, vc)
